@@ -24,7 +24,8 @@ Section MultiLevel.
   Record level := { lM : nat; ldt : K; lnodes : nat -> K; lQ : nat -> nat -> K; lQI : nat -> nat -> K;
                     lfeval : K -> V -> nat -> V; lsolve : nat -> V -> K -> V -> K -> V;
                     lpre : nat; lpost : nat }.
-  Record xfer := { xRs : V -> V; xPs : V -> V; xRcoll : nat -> nat -> K; xPcoll : nat -> nat -> K }.
+  Record xfer := { xRs : V -> V; xPs : V -> V; xRcoll : nat -> nat -> K; xPcoll : nat -> nat -> K;
+                   xfinter : bool (* base_transfer_params finter: prolong_f instead of prolong *) }.
   Definition lstate := ((nat -> V) * (nat -> nat -> V))%type.
 
   Definition sweep1 (L : level) (tau : nat -> option V) (s : lstate) : lstate :=
@@ -36,7 +37,8 @@ Section MultiLevel.
     restrict kO kadd kmul ksub (lM Lf) (lM Lc) (ldt Lf) (ldt Lc) t0 (lnodes Lc) (lQ Lf) (lQ Lc) 1 (lfeval Lc)
              (xRs T) (xRcoll T) (fst s) (snd s) tau.
   Definition prolong_from (T : xfer) (Lf Lc : level) (G : @coarse K X) (s : lstate) : lstate :=
-    prolong kadd kmul ksub (lM Lc) (ldt Lf) t0 (lfeval Lf) (lnodes Lf) (xPs T) (xPcoll T) G (fst s) (snd s).
+    if xfinter T then prolong_f kadd kmul ksub (lM Lc) (xPs T) (xPcoll T) G (fst s) (snd s)
+    else prolong kadd kmul ksub (lM Lc) (ldt Lf) t0 (lfeval Lf) (lnodes Lf) (xPs T) (xPcoll T) G (fst s) (snd s).
 
   Fixpoint vcycle (L : level) (rest : list (xfer * level)) (tau : nat -> option V) (s : lstate) : lstate :=
     match rest with
